@@ -128,13 +128,37 @@ fn parse_seeds(zoo: &[ZooKey], thorough: bool) -> Vec<(String, Vec<u8>)> {
         vec![(4, 6), (8, 6), (7, 8)],
         vec![(10, 4), (9, 2), (11, 1)],
     ];
-    for (i, c) in shapes.iter().enumerate().take(if thorough { 6 } else { 3 }) {
+    for (i, c) in shapes.iter().enumerate().take(if thorough { 6 } else { 2 }) {
         let st = sp.build(c);
         if let Ok(p) = to_params(&st) {
             if let Ok(cert) = p.self_signed(&kp) {
                 v.push((format!("certificate shape {}", i), cert.der().to_vec()));
             }
         }
+    }
+    // one certificate carrying every extension kind in its widest form (two-octet key usage, every
+    // SAN kind, every subtree kind, path length, all EKUs, CRL DPs, custom extension, AKI)
+    {
+        let mut st = CertState::default();
+        st.key_usages = (0..9).collect();
+        st.sans = san_values()[10].1.clone();
+        st.is_ca = IsCaSpec::Constrained(3);
+        st.ekus = vec![EkuSpec::Any, EkuSpec::ServerAuth, EkuSpec::ClientAuth, EkuSpec::CodeSigning, EkuSpec::EmailProtection, EkuSpec::TimeStamping, EkuSpec::OcspSigning, EkuSpec::Other(vec![1, 2, 3, 4])];
+        let ncv = nc_values();
+        st.nc = Some(NcSpec { permitted: vec![ncv[1].1.permitted[0].clone(), ncv[3].1.permitted[0].clone(), ncv[5].1.permitted[0].clone(), ncv[7].1.permitted[0].clone()], excluded: vec![ncv[10].1.excluded[0].clone()] });
+        st.crl_dps = vec![vec!["http://c.example/1".into(), "http://c.example/2".into()]];
+        st.custom_exts = custom_ext_values()[3].1.clone();
+        st.use_aki = true;
+        st.dn = dn_values()[8].1.clone();
+        st.serial = Some(vec![0x7f; 20]);
+        if let Ok(cert) = to_params(&st).unwrap().self_signed(&kp) {
+            v.push(("certificate with every extension".into(), cert.der().to_vec()));
+        }
+        let mut cst = CertState::default();
+        cst.key_usages = (0..9).collect();
+        cst.sans = san_values()[10].1.clone();
+        cst.ekus = vec![EkuSpec::Any, EkuSpec::ServerAuth, EkuSpec::TimeStamping];
+        v.push(("csr with every supported extension".into(), to_params(&cst).unwrap().serialize_request(&kp).unwrap().der().to_vec()));
     }
     // CSRs
     let mut cst = CertState::default();
@@ -213,7 +237,7 @@ fn part_parse_edits(rep: &mut Report, thorough: bool, half: usize) {
     let seeds = parse_seeds(&zoo, thorough);
     let w = Watch { slow: AtomicU64::new(0) };
     let cap = if thorough { 1100 } else { 40 };
-    let quick_keep = |l: &str| l.starts_with("certificate shape") || l == "csr" || l.contains("ed25519_1") || l == "key p256_1.pkcs8.der" || l == "key p256_1.sec1.der" || l == "spki p256_1.pkcs8.der";
+    let quick_keep = |l: &str| l.starts_with("certificate") || l.starts_with("csr with") || l == "csr" || l.contains("ed25519_1") || l == "key p256_1.pkcs8.der" || l == "key p256_1.sec1.der" || l == "spki p256_1.pkcs8.der";
     let seeds: Vec<(String, Vec<u8>)> = seeds.into_iter().filter(|(l, _)| thorough || quick_keep(l)).collect();
     for (si, (label, der)) in seeds.iter().enumerate() {
         if si % 2 != half {
@@ -268,6 +292,44 @@ fn part_parse_edits(rep: &mut Report, thorough: bool, half: usize) {
             });
             rep.add(sec);
         }
+    }
+    if half == 0 {
+        // foreign inputs built with the reference writer: one per unusual-but-encodable form the import code looks at
+        let mut corpus: Vec<(String, Vec<u8>)> = crate::corpus::foreign_certs(&zoo);
+        corpus.extend(crate::corpus::foreign_csrs(&zoo).into_iter().map(|(l, d, _)| (l, d)));
+        let sec = Section::new("parse/foreign-corpus", &format!("{} foreign certificates and CSRs built with the reference DER writer (unusual key-usage bit strings, path lengths, EKU arcs wider than 64 bits, every GeneralName kind, odd names, versions, serials, duplicated extensions) through every parser, DER and PEM", corpus.len()));
+        run::sweep_cases(&sec, &corpus, &|c| c.0.clone(), &|c| {
+            let mut out = Outcome::default();
+            out.transitions = feed_der(&c.1, &mut out.findings, &w);
+            out.transitions += feed_text(&refmodel::pem::encode("CERTIFICATE", &c.1), &mut out.findings, &w);
+            out.digest = fnv(&c.1);
+            out
+        });
+        rep.add(sec);
+        // distance-1 neighbourhoods of the corpus (overwrites only at every position: 255 x len), thorough: everything
+        let sec = Section::new("parse/foreign-corpus-d1", "every distance-1 mutant of every corpus item (quick: every single-byte overwrite of the extension-bearing tail)").with_deadline(cap);
+        let idx: Vec<usize> = (0..corpus.len()).collect();
+        run::sweep_cases(&sec, &idx, &|i| corpus[*i].0.clone(), &|i| {
+            let der = &corpus[*i].1;
+            let mut out = Outcome::default();
+            let n = d1_count(der.len());
+            let lim = 255 * der.len() as u64;
+            let start = if thorough { 0 } else { lim.saturating_sub(255 * 120) };
+            let end = if thorough { n } else { lim };
+            let mut k = start;
+            while k < end {
+                let (m, _) = d1_mutant(der, k);
+                out.transitions += feed_der(&m, &mut out.findings, &w);
+                if out.findings.len() > 4 {
+                    break;
+                }
+                k += 1;
+            }
+            sec.states.fetch_add((end - start).saturating_sub(1), Ordering::Relaxed);
+            out.digest = fnv(der) ^ 9;
+            out
+        });
+        rep.add(sec);
     }
     if w.slow.load(Ordering::Relaxed) > 0 {
         rep.machinery_error("an evaluation took longer than 5 s (possible non-termination); see sections");
